@@ -10,6 +10,15 @@ CLAIMED = {
              "correspondence harness wvh through libwild::verif_hooks::alignment.",
         technique="Coq proof (N arithmetic, lia) + model/implementation correspondence by vm_compute",
         design_ref="DESIGN.md §3 C29"),
+    "C13": dict(
+        text="S1. Every instruction kind of AArch64/RISC-V/LoongArch write_to_value/read_value is a bit-slice term; three theorems for ALL old words and ALL in-range values, "
+             "decided per kind by a reflective checker proved sound (BitReflect): locality (only field bits change), independence from the prior field, decode(encode)=value. "
+             "Full-strength statements are refuted for 5 known classes (witnesses proved in Coq and reproduced on the implementation); theorems proved are the _except_known forms. "
+             "Arithmetic decoders (Movnz NOT, C.LUI/U-type +0x800, Call36) are covered by the tie only (partial).",
+        note="Trusted: Coq kernel + vm_compute; no axioms; hand model of the three writer/reader files; field masks transcribed from ISA manuals; tie = pub API of linker-utils "
+             "run on a basis (single-bit/all-ones old words x single-bit/max/random values) + random; relocation-table bit ranges dumped from the compiled crate.",
+        technique="Coq proof by bit-slice reflection (sound finite checker per kind) + model/implementation correspondence by vm_compute",
+        design_ref="DESIGN.md §3 C13"),
 }
 
 PENDING_REASON = "not claimed yet: model/theorems for this property are not built in this revision (see DESIGN.md §8 construction order)"
